@@ -396,7 +396,47 @@ def r04_6(ctx):
                      '(cross-reference, outside the statement of C04)' % (ss.unit.rel, iff.lineno, src(t)))
 
 
+def r04_7(ctx):
+    """Ownership of the caller's containers.  active_cells(lv) / deactivated_cells(lv) hand out the internal sets, and the
+    documentation of refine() invites `hs.refine({lv: hs.active_cells(lv)})`.  HMesh.refine removes the refined cells from
+    those very sets, so HSpace.refine must work on its own copy of `marked` on EVERY path before the first state write --
+    otherwise the marks are emptied under its feet and _functions_to_deactivate sees none."""
+    rf = ctx.prog.func(H + '.HSpace.refine')
+    getters = []
+    for name in ('active_cells', 'deactivated_cells', 'active_functions', 'deactivated_functions'):
+        g = ctx.prog.maybe_func(H + '.HSpace.' + name)
+        if g is None:
+            continue
+        for r in guards.returns_of(g.node):
+            t = src(r.value).replace(' ', '') if r.value is not None else ''
+            if t.startswith('self.hmesh.active[') or t.startswith('self.hmesh.deactivated[') or t.startswith('self.actfun[') or t.startswith('self.deactfun['):
+                getters.append((name, t))
+    writes = [c for c in own_nodes(rf.node) if isinstance(c, ast.Call) and src(c.func) in ('self.hmesh.refine',)]
+    if not writes:
+        ctx.undecided('R04.7', rf.qual, 'copy of the caller\'s marks before the first state write', rf.node, 'state-writing call not recognised')
+        return
+    first = min(writes, key=lambda c: c.lineno)
+    cp = sanitised_in(rf.node, first.lineno)
+    if not getters:
+        ctx.met('R04.7', rf.qual, 'no getter hands out an internal set', rf.node, nontrivial=False)
+        return
+    if cp is None:
+        ctx.violated('R04.7', rf.qual, 'copy of the caller\'s marks before the first state write', first,
+                     '`marked` reaches self.hmesh.refine() without being copied, but %s returns the internal set %s: refining the cells it '
+                     'returns empties the marks while they are processed' % (getters[0][0], getters[0][1]))
+        return
+    conds = guards.path_conditions(cp, stop=rf.node)
+    if conds:
+        ctx.violated('R04.7', rf.qual, 'copy of the caller\'s marks before the first state write', cp,
+                     'the copy `%s` is made only under `%s`; on the other path `marked` may alias the internal set returned by %s(lv) (%s), which '
+                     'HMesh.refine empties (self.active[lv] -= cells) before _functions_to_deactivate reads the marks: refine({0: hs.active_cells(0)}) '
+                     'with infinite disparity deactivates no function' % (src(cp)[:60], ' and '.join(t for (t, _p, _n) in conds), getters[0][0], getters[0][1]))
+    else:
+        ctx.met('R04.7', rf.qual, 'copy of the caller\'s marks before the first state write', cp, 'unconditional copy into fresh sets')
+
+
 def run(ctx):
+    r04_7(ctx)
     r04_1(ctx)
     r04_2(ctx)
     r04_3(ctx)
